@@ -275,7 +275,7 @@ func checkC07(c *lib.Ctx) {
 		}
 		return
 	} else {
-		r.Histogram["selftest/interface-variants-verified-by-type-assertion"] += n
+		r.HistAdd("selftest/interface-variants-verified-by-type-assertion", n)
 	}
 	for i := range sessions {
 		sessions[i].idx = i
